@@ -37,6 +37,26 @@ EXEMPT_DROPS = {
 }
 
 
+def fold_tuple(node, globs, depth=0):
+    """value of a tuple-of-integers expression: displays, module-level names, + of tuples"""
+    if depth > 6:
+        return None
+    if isinstance(node, ast.Tuple):
+        out = []
+        for e in node.elts:
+            if isinstance(e, ast.Constant) and isinstance(e.value, int):
+                out.append(e.value)
+            else:
+                return None
+        return tuple(out)
+    if isinstance(node, ast.Name) and isinstance(globs.get(node.id), ast.AST):
+        return fold_tuple(globs[node.id], globs, depth + 1)
+    if isinstance(node, ast.BinOp) and isinstance(node.op, ast.Add):
+        a, b = fold_tuple(node.left, globs, depth + 1), fold_tuple(node.right, globs, depth + 1)
+        return a + b if a is not None and b is not None else None
+    return None
+
+
 def writer_tree(f, node, env):
     """TLV tree of a writer expression: (TAG, [children]) | ('OID',) | ('RAW', text)"""
     if isinstance(node, ast.Name) and node.id in env:
@@ -254,7 +274,7 @@ def run(chk):
     for name, node in curves.items():
         a = node.args
         nm = a[0].value if isinstance(a[0], ast.Constant) else None
-        oid = tuple(e.value for e in a[3].elts) if isinstance(a[3], ast.Tuple) else None
+        oid = fold_tuple(a[3], cm.globals)
         oids.setdefault(oid, []).append(name)
         names.setdefault(nm, []).append(name)
         c_, g_ = norm_text(a[1]), norm_text(a[2])
@@ -268,8 +288,30 @@ def run(chk):
     chk.ob("R09.2", "names pairwise distinct", all(len(v) == 1 for v in names.values()), loc="curves.py", key="C09|R09.2|names", detail="duplicate names: %s" % {k: v for k, v in names.items() if len(v) > 1})
     chk.ob("R09.2", "each Curve pairs ecdsa.curve_X with the generator constructed on curve_X (generator=True)", okpair, loc="curves.py", key="C09|R09.2|pairing", detail="curve/generator mismatch for %s" % bad)
     fc = p.func("curves:find_curve")
-    okfc = any(isinstance(n, ast.For) and norm_text(n.iter) == "curves" for n in ast.walk(fc.node)) and any(isinstance(n, ast.Compare) and ".oid ==" in norm_text(n) for n in ast.walk(fc.node)) and any(isinstance(n, ast.Raise) and "UnknownCurveError" in norm_text(n) for n in ast.walk(fc.node))
-    chk.ob("R09.2", "find_curve scans `curves` by OID and raises UnknownCurveError otherwise", okfc, loc=fc.qname, key="C09|R09.2|find_curve", detail="find_curve has another shape")
+    # find_curve on an abstract registry of three curve tokens: the one with the requested OID is
+    # returned (the first one when an OID occurs twice), UnknownCurveError otherwise
+    from sa import small as _sm
+
+    class Cv(_sm.Abstract):
+        def __init__(self, name, oid):
+            self.name, self.oid = name, oid
+    reg = [Cv("A", (1, 2, 3)), Cv("B", (1, 2, 4)), Cv("C", (1, 2, 4)), Cv("D", (1, 5))]
+    call = _sm.function(fc.node, {"curves": reg, "len": len})
+    okfc = True
+    whyfc = ""
+    try:
+        okfc &= call((1, 2, 3)) is reg[0] and call((1, 2, 4)) is reg[1] and call((1, 5)) is reg[3]
+        try:
+            r_ = call((9, 9))
+            okfc = False
+            whyfc = "an unregistered OID returns %r" % (r_,)
+        except _sm.Raised as e_:
+            okfc &= e_.name == "UnknownCurveError"
+            whyfc = "an unregistered OID raises %s" % e_.name
+    except (_sm.Unsupported, TypeError) as e_:
+        raise AnalysisError("find_curve: a construct the abstract registry scenario cannot follow (%s)" % e_)
+    chk.ob("R09.2", "find_curve returns the registered curve with the requested OID and raises UnknownCurveError otherwise (abstract registry of 4 entries)", okfc, loc=fc.qname, key="C09|R09.2|find_curve",
+           detail="find_curve does not look the OID up in `curves`: %s" % whyfc)
     # ---------------- R09.3 lengths
     vk = VSym(("param", "self"), cls=frozenset(["VerifyingKey"]))
     it = W.interp()
